@@ -21,12 +21,14 @@
         allocated *after* the then-block; else-block;
       - `block` / `block_expr` / `stmt`; `assign` (value → fresh temporary →
         variable); `compound_assign` (desugared to `x = x op e`, i.e. the
-        target is cloned into a temporary *before* `e` is lowered);
+        target is cloned into a temporary *before* `e` is lowered); both also with a
+        field `x.f` as the target (a `Place` with a projection);
       - `return`; `while` (examinee temporary allocated first, condition
         re-evaluated on every iteration).
       - `Option.Some(e)` (`enum_constructor` + `make_enum`), `Option.None`,
         `accept e` / `reject e` (the operand stays lazy until `make_enum` stores
-        it), `e?` (`question_mark`); record literals (`record`) and field access (`access`);
+        it), `e?` (`question_mark`); record literals (`record`: fields lowered, stored and
+        moved in in WRITTEN order, each to the field it names) and field access (`access`);
       - script-function calls (`Value::Call`; the callee's structured MIR runs from a store
         holding its parameters);
       - list literals (`list`; lists are shared handles and this model has no heap: the `push`
@@ -131,12 +133,12 @@ def payload : Val → Nat → Option Int
   | .recd fs, i => fs[i]?
   | _, _ => none
 
-/-- Store `n` into field `i` (a record is filled front to back). -/
+/-- Store `n` into field `i` (an aggregate temporary starts with blank fields). -/
 def setPayload : Val → Nat → Int → Option Val
   | .opt (some _), 0, n => some (.opt (some n))
   | .verdict b _, 0, n => some (.verdict b n)
   | .enm k fs, i, n => if i < fs.length then some (.enm k (fs.set i n)) else none
-  | .recd fs, i, n => if i = fs.length then some (.recd (fs ++ [n])) else none
+  | .recd fs, i, n => if i < fs.length then some (.recd (fs.set i n)) else none
   | _, _, _ => none
 
 /-- Evaluate an assignment's operand: the calls it makes and its value. -/
@@ -321,6 +323,13 @@ def storeFields (to : Var) : Nat → List Var → List Stm
   | _, [] => []
   | i, x :: xs => .assignField to i (.move x) :: storeFields to (i + 1) xs
 
+/-- `record`: the already materialised field values moved into the record, in the order in
+    which they were WRITTEN, each into the field it was written for (`Projection::Field(name)`:
+    `perm[i]` is the position of that field in the record type) -/
+def storeFieldsAt (to : Var) : List Nat → List Var → List Stm
+  | p :: ps, x :: xs => .assignField to p (.move x) :: storeFieldsAt to ps xs
+  | _, _ => []
+
 /-- `shortcircuit_binop`: left stored in `tmp`; `switch tmp [(other_if, other)] default cont`;
     in `other` the right operand is evaluated and stored in `tmp`
     (`&&`: the right operand runs when the left is `true`; `||`: when it is `false`). -/
@@ -420,6 +429,22 @@ def lowerE : Expr → Nat → Option (Code × Value × Nat)
               ++ [.assign (.t c) (.binop xl op xr), .assign (.x x) (.move (.t c))],
             .const .unit, c + 1)
     else none
+  | .assignF x i e, c => do
+    -- `assign` with a projection: the value goes to a temporary, then into the place `x.f`
+    let (ce, ve, c) ← lowerE e c
+    pure (ce ++ [.assign (.t c) ve, .assignField (.x x) i (.move (.t c))], .const .unit, c + 1)
+  | .cassignF op x i e, c =>
+    -- `compound_assign`: `x.f = x.f op e` — `binop` clones the target path into a temporary first
+    if op.isArith then do
+      let xl := Var.t c
+      let (cr, vr, c) ← lowerE e (c + 1)
+      let mr := atvCode vr c
+      let xr := atvVar vr c
+      let c := atvNext vr c
+      pure ([.assign xl (.cloneField (.x x) i)] ++ (cr ++ mr)
+              ++ [.assign (.t c) (.binop xl op xr), .assignField (.x x) i (.move (.t c))],
+            .const .unit, c + 1)
+    else none
   | .ret e, c => do
     let (ce, ve, c) ← lowerE e c
     let me := atvCode ve c
@@ -450,14 +475,18 @@ def lowerE : Expr → Nat → Option (Code × Value × Nat)
     pure (ce ++ me ++ [.assign (.t c) (.disc xe),
                        .iteD (.t c) 0 [] [.setDisc (.t (c + 1)) (.opt none), .ret (.t (c + 1))]],
           .cloneProj xe 0 0, c + 2)
-  | .record fs, c => do
-    -- `record`: every field lowered and materialised (`assign_to_var`) before the next one,
-    -- like the arguments of an enum constructor (fix bb2b488: an early exit in a later field
-    -- must not find a half-built record among the live variables); then the result temporary
-    -- is allocated and the fields are moved in. The real MIR has no instruction that creates
-    -- the empty record; this untyped model starts from `{}` explicitly.
+  | .record perm fs, c => do
+    -- `record`: every field, in the order in which the literal WRITES them (`record.fields`,
+    -- not the order of the record type), lowered and materialised (`assign_to_var`) before the
+    -- next one, like the arguments of an enum constructor (fix bb2b488: an early exit in a later
+    -- field must not find a half-built record among the live variables); then the result
+    -- temporary is allocated and the fields are moved in, in the same written order, each to the
+    -- field it names. The real MIR has no instruction that creates the blank record; this
+    -- untyped model starts from a record of blank fields explicitly.
     let (ca, xs, c) ← lowerCtorArgs fs c
-    pure (ca ++ [.setDisc (.t c) (.recd [])] ++ storeFields (.t c) 0 xs, .move (.t c), c + 1)
+    if permOk perm xs.length then
+      pure (ca ++ [.setDisc (.t c) (.recd (List.replicate xs.length 0))] ++ storeFieldsAt (.t c) perm xs, .move (.t c), c + 1)
+    else none
   | .field (.var x) i, c =>
     -- `x.f` is one path (`path_value` with a projection): a lazy read, like a variable
     some ([], .cloneField (.x x) i, c)
